@@ -8,9 +8,10 @@ import math
 import re
 import struct
 import warnings
-from datetime import datetime, timedelta
+from datetime import datetime, timedelta, timezone, tzinfo
 
 import pywbem
+from pywbem._tupletree import xml_to_tupletree_sax
 from pywbem import (CIMDateTime, MinutesFromUTC, CIMProperty, CIMQualifier,
                     CIMParameter, CIMQualifierDeclaration, CIMInstanceName,
                     CIMClassName, CIMInstance, CIMClass, Real32, Real64,
@@ -468,6 +469,24 @@ def case_setter(ctx, rng):
 
 # ------------------------------------------------------------- datetimes ---
 
+class OtherTZ(tzinfo):
+    """A tzinfo implementation that is neither pywbem's nor the standard
+    library's."""
+
+    def __init__(self, minutes):
+        super().__init__()
+        self.minutes = minutes
+
+    def utcoffset(self, dt):
+        return timedelta(minutes=self.minutes)
+
+    def dst(self, dt):
+        return timedelta(0)
+
+    def tzname(self, dt):
+        return 'vf%+d' % self.minutes
+
+
 TS_RE = re.compile(r'^(\d{4}|\*{4})(\d\d|\*\*){5}\.(\d{6}|\d{0,5}\*{1,6})'
                    r'[+-]\d{3}$')
 IV_RE = re.compile(r'^(\d{8}|\*{8})(\d\d|\*\*){3}\.(\d{6}|\d{0,5}\*{1,6})'
@@ -503,14 +522,34 @@ def case_datetime(ctx, rng):
                     rng.random() < 0.3:
                 mo, d = 2, 29
             us = rng.choice([0, 1, 999999, 123456, rng.randint(0, 999999)])
+            q = rng.random()
+            if q < 0.55:
+                tz = MinutesFromUTC(off)
+            elif q < 0.7:
+                tz = None
+            elif q < 0.85:
+                # the standard library's fixed-offset time zone
+                tz = timezone(timedelta(minutes=off))
+            else:
+                tz = OtherTZ(off)       # any tzinfo implementation
             dt = datetime(y, mo, d, rng.choice([0, 23, rng.randint(0, 23)]),
                           rng.choice([0, 59, rng.randint(0, 59)]),
-                          rng.choice([0, 59, rng.randint(0, 59)]), us,
-                          MinutesFromUTC(off) if rng.random() < 0.85 else None)
+                          rng.choice([0, 59, rng.randint(0, 59)]), us, tz)
             src = ('datetime', repr(dt))
-            ctx.cls('datetime/from-datetime')
+            ctx.cls('datetime/from-datetime' + (
+                '' if tz is None or isinstance(tz, MinutesFromUTC)
+                else '/other-tzinfo'))
             x = CIMDateTime(dt)
             nontriv = off != 0 or us in (0, 999999) or y in (1, 9999)
+            if tz is not None:
+                # the object holds the point in time and the UTC offset it
+                # was given
+                if x.datetime != dt or x.minutes_from_utc != off:
+                    ctx.violation(
+                        'datetime.from-datetime.instant-or-offset-changed',
+                        'CIMDateTime(%r) holds %r with offset %r'
+                        % (dt, x.datetime, x.minutes_from_utc),
+                        {'kind': 'datetime', 'source': src})
         elif r < 0.5:
             days = rng.choice([0, 1, 99999999, 99999998, 365,
                                rng.randint(0, 99999999)])
@@ -703,6 +742,32 @@ def case_real(ctx, rng):
     if fbits(float(back), single) != fbits(f, single):
         ctx.violation('real.value-changed.' + t,
                       '%s %r -> %r -> %r' % (t, f, txt, float(back)), desc)
+    # the same value as a keybinding (KEYVALUE is written by another code
+    # path than VALUE), typed and as plain python float
+    for key in (obj, float(f)) if rng.random() < 0.3 else ():
+        try:
+            kx = CIMInstanceName('C', {'k': key}).tocimxml().toxml()
+            ktxt = re.search(r'<KEYVALUE[^>]*>([^<]*)</KEYVALUE>', kx).group(1)
+            kback = tp.parse_instancename(
+                xml_to_tupletree_sax(kx, 'vf C06')).keybindings['k']
+        except CaseTimeout:
+            raise
+        except Exception as exc:  # pylint: disable=broad-except
+            ctx.unexpected(exc, 'real keybinding print/parse', desc,
+                           prefix='real-key:')
+            continue
+        ctx.count('real-keybinding-checked')
+        kd = dict(desc, keyvalue_text=ktxt, typed=key is obj)
+        want = 'NaN' if f != f else 'INF' if f == float('inf') else \
+            '-INF' if f == float('-inf') else None
+        if want is not None and ktxt != want:
+            ctx.violation('real.key.%s-spelling' % (
+                'nan' if f != f else 'inf'),
+                '%r as keybinding is written as %r' % (f, ktxt), kd)
+        if fbits(float(kback), single and key is obj) != \
+                fbits(f, single and key is obj):
+            ctx.violation('real.key.value-changed.' + t,
+                          '%s key %r -> %r -> %r' % (t, f, ktxt, kback), kd)
 
 
 CASES = [(case_int, 30), (case_cimvalue, 20), (case_setter, 20),
